@@ -61,6 +61,10 @@ def gen_case(rng, i, tier):
             hist.append({'call': 'output_docs'})
         else:
             hist.append({'call': 'to_writer', 'format': rng.choice(['', 'json', 'yaml'])})
+    from .c08 import bound_repeat
+    for h in hist:
+        if h['call'] == 'merge':
+            bound_repeat(h['data'])        # legitimately huge expansions are not what this property is about
     return {'hist': hist, 'labels': sorted(labels), 'files': i % 4 == 0}
 
 
